@@ -3010,7 +3010,16 @@ fn build_type_of_ref1(
 	took_address: bool,
 ) -> ValueType
 {
-	let mut full_type = base_type;
+	// If an address was taken, the steps lead to the pointee.
+	let mut full_type = match base_type
+	{
+		ValueType::Pointer { deref_type }
+			if took_address && !steps.is_empty() =>
+		{
+			*deref_type
+		}
+		base_type => base_type,
+	};
 	let mut is_indirect = false;
 
 	for step in steps.iter().rev()
